@@ -332,10 +332,63 @@ def classify(r):
     return 'primary'
 
 
+def _bounded_only(ctx, g, why):
+    """The loop contracts of g do not fit the code any more (the unit only compiles without them): bounded stand-in."""
+    b3 = compile_group(ctx, g, [g.replay.small_define, 'VERIF_NO_LOOP_CONTRACTS=1'], '_unwound', no_loop_contracts=True)
+    flags = list(g.cbmc_flags) + ['--unwindset', ','.join('%s.%d:%d' % (g.enforce, k, g.fallback_unwind) for k in range(6)),
+                                  '--unwind', str(max(g.fallback_unwind, 40)), '--unwinding-assertions']
+    g2 = Group(**{**{f: getattr(g, f) for f in ('name', 'harness', 'entry', 'function', 'checks', 'object_bits', 'first', 'stage1')},
+                  'cbmc_flags': flags, 'timeout': max(g.timeout, 180)})
+    e5, (res5, st5, _), dt5, log5, raw5 = portfolio(g2, b3, engines=['minisat', 'cadical'])
+    f5 = [r for r in res5 if r['status'] == 'FAILURE' and classify(r) == 'primary' and 'unwind' not in r['property']]
+    if not f5:
+        raise Undecided('the loop contracts of %s no longer fit the code (the unit compiles only without them) and the bounded re-check '
+                        '(unwind %d, small inputs) found no failing postcondition: proof broken, no violation known\n%s'
+                        % (g.name, g.fallback_unwind, why[-600:]))
+    failed = []
+    for r in f5[:3]:
+        sl = r.get('sourceLocation', {})
+        failed.append({'name': r['property'], 'description': r.get('description', '') + ' [the loop contracts no longer fit the code; found on the loop-unwound code, unwind %d, small inputs]' % g.fallback_unwind,
+                       'status': 'FAILURE', 'class': 'primary', 'file': sl.get('file', ''), 'line': sl.get('line', ''), 'function': sl.get('function', '')})
+    g.result.update({'engine': e5, 'seconds': round(dt5, 2), 'log': [(e, s, round(t, 2)) for e, s, t in log5], 'obligations': list(failed), 'failed': failed,
+                     'bounded_fallback': 'loop contracts do not compile against the edited code; postcondition fails on the unwound code',
+                     'fallback_flags': flags, 'binary': b3, 'cbmc': ' '.join(cbmc_cmd(g2, b3, e5))})
+    try:
+        import copy as _copy
+        gt = _copy.copy(g)
+        gt.cbmc_flags = flags
+        e3, (res3, st3, _), dt3, log3, raw3 = portfolio(gt, b3, trace=True, prop=failed[0]['name'], engines=['minisat', 'cadical'], timeout=max(g.timeout, 60))
+        g.result['trace_inputs'] = trace_inputs(res3, failed[0]['name'])
+        g.result['trace_property'] = failed[0]['name']
+    except Undecided:
+        g.result['trace_inputs'] = None
+    g.result['wall'] = 0
+    return None
+
+
 def verify_group(ctx, g: Group):
     """Fills g.result. Never raises for verdicts; raises Undecided for tool trouble."""
     t0 = time.time()
-    binary = compile_group(ctx, g)
+    try:
+        binary = compile_group(ctx, g)
+    except Undecided as ex:
+        if 'goto-cc failed' not in str(ex):
+            raise
+        # The extracted unit does not compile.  One recoverable cause: an injected loop contract names a local variable that an edit
+        # renamed or removed.  Re-compile without the loop contracts (-DVERIF_NO_LOOP_CONTRACTS):
+        #  - a group without loop contracts of its own is verified as usual (the broken contract belongs to another function of the unit);
+        #  - a group with loop contracts falls back to the bounded stand-in (contract enforced on the unwound code, small inputs): a failing
+        #    postcondition there is a violation with a replayable input; otherwise the group stays undecided (the proof is broken, exit 2).
+        if g.loops and not (g.fallback_unwind and g.replay is not None and g.replay.small_define):
+            raise
+        try:
+            if not g.loops:
+                g.defines = list(g.defines) + ['VERIF_NO_LOOP_CONTRACTS=1']
+                binary = compile_group(ctx, g)
+            else:
+                return _bounded_only(ctx, g, str(ex))
+        except Undecided as ex2:
+            raise Undecided(str(ex2) if 'no longer fit the code' in str(ex2) else ('[bounded re-check without the loop contracts: %s]\n' % str(ex2)[:600] + str(ex)))
     engine, (results, status, msgs), dt, log, raw = portfolio(g, binary)
     obl = []
     reach_seen, reach_failed = False, False
